@@ -345,6 +345,10 @@ class C15(Spec):
                  'jwt_set_int', 'jwt_set_str', 'jwt_set_bool', 'jwt_set_json', 'jwt_get_int', 'jwt_get_str',
                  'jwt_get_bool', 'jwt_get_json', 'jwt_obj_check']
 
+    def prechecks(self, bld, tier='quick'):
+        from . import selftest
+        return [selftest.json_model_conformance(bld)]
+
     def queries(self, tier, bld):
         qs = []
         for op, on in enumerate(('set', 'get', 'del')):
@@ -477,6 +481,10 @@ TOOL_MODELS = ['alloc', 'jansson_model', 'env', 'provider_stub', 'getopt_model']
 
 class C20(Spec):
     functions = ['main (tools/jwt-verify.c)', 'process_one', 'print_token_trunc', 'jwt_str_alg', 'jwt_alg_str']
+
+    def prechecks(self, bld, tier='quick'):
+        from . import selftest
+        return [selftest.getopt_model_conformance(bld)]
 
     def queries(self, tier, bld):
         import os
